@@ -8,6 +8,7 @@ import (
 	"encoding/json"
 	"errors"
 	"fmt"
+	"github.com/mr-tron/base58"
 	"io"
 	"net/http"
 	"strings"
@@ -211,9 +212,19 @@ func runC19(r *simkit.Run, c Cfg) {
 	provs := []*Ident{Identity("V1"), Identity("V2"), Identity("V3")}
 	addrPool := []string{"/ip4/8.8.8.8/tcp/3104", "/dns4/prov.example.com/tcp/443/https", "/ip6/2606:4700::1111/tcp/80/http"}
 	for i := 0; i < nm; i++ {
-		hf := []uint64{multihash.SHA2_256, multihash.SHA2_512, multihash.IDENTITY, multihash.SHA1, multihash.SHA3_256}[tp.Choose(5, "mhfn")]
+		hf := []uint64{multihash.SHA2_256, multihash.SHA2_512, multihash.IDENTITY, multihash.SHA1, multihash.SHA3_256, 0xffff}[tp.Choose(6, "mhfn")]
 		var mh multihash.Multihash
-		if hf == multihash.SHA3_256 {
+		if hf == 0xffff {
+			// a multihash whose base58 form - what the find client sends -
+			// consists of hex digits only and, read as hex, is a well-formed
+			// multihash of another kind: the base58 reading is the one the
+			// client means
+			mh = must(base58.Decode([]string{"171311155555555555555555555555555555555555", "171311155555555555555555555555555555555556", "171311155555555555555555555555555555555565"}[i%3]))
+			if _, err := multihash.Decode(mh); err != nil {
+				panic("harness: constructed key is not a multihash: " + err.Error())
+			}
+			r.Probe("base58-key-of-hex-digits-only")
+		} else if hf == multihash.SHA3_256 {
 			// a truncated digest (30 of 32 bytes), hex form without digit 0:
 			// read as base58 such keys happen to be well-formed multihashes
 			// of another kind
@@ -464,6 +475,16 @@ func c19Raw(r *simkit.Run, t *simkit.Task, net *simkit.Net, fs *findServer, ctx 
 	switch tp.Choose(9, "keyform") {
 	case 0:
 		key = hex.EncodeToString(mh)
+		if hb, err := base58.Decode(key); err == nil {
+			if _, err := multihash.Decode(hb); err == nil {
+				// this hex string is also the base58 form of another
+				// well-formed multihash: ambiguous, and base58 is what the
+				// library's client speaks - not a key form to expect an
+				// answer for
+				key = mh.B58String()
+				r.Probe("ambiguous-hex-key-not-used")
+			}
+		}
 	case 1:
 		pathType = cidType
 		key = cid.NewCidV1(cid.Raw, mh).String()
